@@ -74,4 +74,5 @@ def build(job):
 
 def extra_evidence():
     from .. import rx
-    return dict(regex_classes_checked_constant_beyond_U2FFFF=sorted(set(rx.tail_checked)))
+    return dict(regex_classes_checked_constant_beyond_U2FFFF=sorted(set(rx.tail_checked)),
+                regex_classes_not_constant_beyond_U2FFFF_claim_restricted_to_z3_alphabet=sorted(set(rx.tail_inexact)))
